@@ -52,13 +52,13 @@ def arms(fi: FuncInfo, subject: str) -> Dict[str, ast.If]:
 
 def check(repo: Repo, R) -> None:
     noret = noreturn_set(repo)
-    dispatch(repo, R, noret)
-    isinstance_valid(repo, R)
-    narrowed_attrs(repo, R)
-    order_and_names(repo, R, noret)
-    testbench(repo, R, noret)
-    numeric(repo, R)
-    field_coverage(repo, R)
+    R.run(dispatch, repo, R, noret)
+    R.run(isinstance_valid, repo, R)
+    R.run(narrowed_attrs, repo, R)
+    R.run(order_and_names, repo, R, noret)
+    R.run(testbench, repo, R, noret)
+    R.run(numeric, repo, R)
+    R.run(field_coverage, repo, R)
     rule = "C17.4-order-multiplicity-names"
     fsd = repo.func(F_SIMDATA, "sim")
     loops = [n for n in au.walk_no_nested(fsd.node) if isinstance(n, ast.For) and ast.unparse(n.iter) == "cls.__dict__.items()" and isinstance(n.target, ast.Tuple) and len(n.target.elts) == 2]
